@@ -44,6 +44,13 @@ NOT_YET = "check not built yet in this round (planned: DESIGN.md §6); not claim
 
 
 def main():
+    # per-property fragments written next to the check: harness/props/Cxx.manifest.json
+    pdir = os.path.join(VERIF, "harness", "props")
+    for f in sorted(os.listdir(pdir)):
+        if f.endswith(".manifest.json"):
+            with open(os.path.join(pdir, f)) as fh:
+                frag = json.load(fh)
+            CHECKS.setdefault(f.split(".")[0], frag)
     checks = []
     na = []
     for pid in ALL:
